@@ -670,3 +670,157 @@ def c27(prop, tier, replay):
 
 
 REGISTRY.update({"C27": c27})
+
+
+def classify_occ(o):
+    """'nt' | 'state' | None for an identifier occurrence reported by the harness (parol.par parse tree path)"""
+    path = o["path"]
+    if "UserTypeName" in path or "MemberName" in path:
+        return None
+    if "ScannerStateDirectives" in path:
+        return "state"
+    if "IdentifierList" in path:
+        return "state" if "TokenWithStates" in path else "nt"
+    last = path[-1] if path else ""
+    if last == "ScannerState":
+        return "state"
+    if last in ("Production", "NonTerminal", "StartDeclaration"):
+        return "nt"
+    if last == "Declaration":
+        return "nt" if o["prev"] == "%nt_type" else None
+    return None
+
+
+def c28(prop, tier, replay):
+    t0 = time.time()
+    rep = Reporter(prop, tier)
+    binary = pvlib.build_ls()
+    g = {"generated": 0, "distinct": 0}
+    only = None
+    if replay:
+        case = json.load(open(replay))["case"]
+        texts = [(case["id"], case["text"])]
+        only = (case["old"], case.get("at"))
+    else:
+        texts, g = ls_texts(prop, tier)
+    scans = scan_texts(texts, f"{prop}_{tier}")
+    valid = [(tid, t) for tid, t in texts if tid in scans]
+    work = []     # (tid, text, kind, old, new, occurrence offsets, request offset)
+    nsym = 0
+    for tid, t in valid:
+        sc = scans[tid]
+        nts, states = set(sc["nts"]), set(sc["states"])
+        occs = [(o, classify_occ(o)) for o in sc["occ"]]
+        by = {}
+        for o, k in occs:
+            if k:
+                by.setdefault((k, o["text"]), []).append(o["start"])
+        allnames = {o["text"] for o, _ in occs}
+        for (k, name), starts in sorted(by.items()):
+            if (k == "nt" and (name == sc["start"] or name not in nts or name in states)) or \
+               (k == "state" and (name == "INITIAL" or name not in states or name in nts)):
+                continue
+            nsym += 1
+            new = "Zq9" if k == "nt" else "ZQ8"
+            while new in allnames:
+                new += "x"
+            # request positions: quick = first and last occurrence (start and last character), thorough = every occurrence
+            sel = starts if tier != "quick" else sorted({starts[0], starts[-1]})
+            for st in sel:
+                for delta in ((0, len(name) - 1) if tier != "quick" else ((0,) if st == starts[0] else (len(name) - 1,))):
+                    if only and (name != only[0] or (only[1] is not None and st + delta != only[1])):
+                        continue
+                    work.append((tid, t, k, name, new, starts, st + delta))
+    if not work:
+        raise ToolError("no renameable occurrences")
+    # group by text so that a document is opened once
+    by_text = {}
+    for w in work:
+        by_text.setdefault(w[0], []).append(w)
+    groups = sorted(by_text.values(), key=len, reverse=True)
+    nw = 8
+    chunks = [[] for _ in range(nw)]
+    for i, gr in enumerate(groups):
+        chunks[min(range(nw), key=lambda j: sum(len(x) for x in chunks[j]))].append(gr)
+
+    def worker(a):
+        wid, grs = a
+        doc = LsDoc(binary, f"c28_{wid}")
+        out = []
+        try:
+            for gr in grs:
+                doc.set_text(gr[0][1])
+                for tid, t, k, old, new, starts, at in gr:
+                    pos = pos_of(t, at)
+                    pr, why = doc.req("textDocument/prepareRename", {"textDocument": {"uri": doc.uri}, "position": pos})
+                    if pr is None:
+                        doc.set_text(t)
+                        out.append((tid, k, old, new, starts, at, None, "crash(C30) in prepareRename: " + why, None))
+                        continue
+                    r, why = doc.req("textDocument/rename", {"textDocument": {"uri": doc.uri}, "position": pos, "newName": new})
+                    if r is None:
+                        doc.set_text(t)
+                        out.append((tid, k, old, new, starts, at, None, "crash(C30) in rename: " + why, None))
+                        continue
+                    edits = []
+                    res = r.get("result")
+                    if res:
+                        for dc in res.get("documentChanges") or []:
+                            edits += dc.get("edits", [])
+                        for es in (res.get("changes") or {}).values():
+                            edits += es
+                    b = apply_edits(t, edits)
+                    out.append((tid, k, old, new, starts, at, b if b is not None else t, None if b is not None else "overlapping edits",
+                                {"prepare": pr.get("result"), "n_edits": len(edits), "error": r.get("error")}))
+        finally:
+            doc.close()
+        return out
+    vec_path = os.path.join(OUT, f"{prop}_{tier}.vec.ndjson")
+    tmap = dict(valid)
+    n = 0
+    with ThreadPoolExecutor(max_workers=nw) as ex, open(vec_path, "w") as f:
+        for res in ex.map(worker, enumerate(chunks)):
+            for tid, k, old, new, starts, at, b, fail, extra in res:
+                t = tmap[tid]
+                if fail and b is None:
+                    rep.violation({"id": tid, "text": t, "old": old, "at": at, "crash": True}, f"rename {old} at byte {at} of {tid}: {fail}")
+                    continue
+                bb = t.encode()
+                exp = []
+                last = 0
+                for s0 in sorted(starts):
+                    exp.append(bb[last:s0])
+                    exp.append(new.encode())
+                    last = s0 + len(old.encode())
+                exp.append(bb[last:])
+                n += 1
+                f.write(json.dumps({"op": "renameNT" if k == "nt" else "renameState", "id": f"{tid}@{at}", "a": t, "b": b, "exp": b"".join(exp).decode(),
+                                    "old": old, "new": new, "info": {"text_id": tid, "at": at, "occurrences": len(starts), "server": extra, "note": fail}}) + "\n")
+    outp = os.path.join(OUT, f"{prop}_{tier}.replay.ndjson")
+    pvlib.pv(["replay", "lsx", vec_path, outp])
+    summary = read_ndjson(outp)[-1]["summary"]
+    vecs = {v["id"]: v for v in read_ndjson(vec_path)}
+
+    def describe(first, ev, run_ev):
+        v = vecs.get(ev.get("id"), {})
+        return {"id": ev["info"]["text_id"], "text": v.get("a"), "old": v.get("old"), "at": ev["info"]["at"], "why": ev.get("why"), "kind": ev.get("op")}, \
+            f"{ev.get('op')} {v.get('old')} -> {v.get('new')} requested at byte {ev['info']['at']} of {ev['info']['text_id']} " \
+            f"({ev['info']['occurrences']} occurrences, server made {(ev['info'].get('server') or {}).get('n_edits')} edits): {ev.get('why')}"
+    tvres = tv.validate(prop, "LsText", outp + ".trace", rep, describe, nchunks=8, boundary="lsx", run_prefix=f"{prop}_{tier}_tv")
+    rc = rep.finish()
+    cov = {"states": max(tvres["states"], 1), "transitions": max(tvres["states"], 1), "traces_validated_against_impl": tvres["cases_accepted"],
+           "evaluations": n, "distinct_nontrivial": nsym, "samples": [{"id": v["id"], "old": v["old"], "new": v["new"]} for v in list(vecs.values())[:3]],
+           "rule": "texts: repository .par files, TLC-enumerated PAR feature templates (Gen_Flags.tla), a comment-heavy text (LF / CRLF); for every "
+                   "non-terminal other than the start symbol and every scanner state other than INITIAL (names that are both are skipped), occurrences "
+                   "found by running parol.par on the text through the run-time parser (definitions, references, %nt_type, %on / %skip lists, <state "
+                   "lists>, %enter / %push targets, %scanner); the real parol-ls gets prepareRename + rename at the first and last occurrence "
+                   "(thorough: every occurrence, first and last character) with a fresh name; the driver applies the WorkspaceEdit; LsText.tla accepts "
+                   "iff the result is a valid grammar whose model is RenameNT / RenameState of the original model, the comments are unchanged and the "
+                   "text equals the original with exactly the occurrences of that symbol replaced. non-trivial = renamed symbols",
+           "tags": summary["tags"], "tlc_states": g["distinct"], "tv": {k: tvres[k] for k in ("events", "cases", "cases_accepted", "states")},
+           "known_findings_seen": rep.known}
+    write_evidence(prop, tier, "exploration", cov, time.time() - t0, len(rep.violations), [])
+    return rc
+
+
+REGISTRY.update({"C28": c28})
